@@ -97,6 +97,7 @@ type threadState struct {
 	cur      *thread
 	running  bool
 	atomics  map[*Value]vclock
+	imgCells map[*Term]*Value // race-detector pseudo cells of image regions (by base address term)
 }
 
 type onceState struct {
@@ -298,6 +299,9 @@ func curTid(fr *frame) int {
 // ---- happens-before race detection ----
 
 func (in *Interp) raceAccess(fr *frame, p *Value, write bool) {
+	if fr == nil {
+		return
+	}
 	t := fr.thread
 	if t == nil || in.path.threads == nil || !in.path.threads.running {
 		return
@@ -379,9 +383,7 @@ func (in *Interp) mutexUnlock(fr *frame, mu *Value, kind string) {
 	ts := in.ts()
 	m := ts.mutex(mu)
 	tid := curTid(fr)
-	if fr.thread != nil {
-		in.yield(fr, pendingOp{kind: kind, mu: mu})
-	}
+	// releases are left movers: no scheduling point is needed before them
 	if kind == "unlock" {
 		if m.writer == noWriter {
 			panic(&goPanic{val: "fatal error: sync: unlock of unlocked mutex", kind: "sync", site: fr.site()})
@@ -471,4 +473,26 @@ func (in *Interp) onceDo(fr *frame, o *Value, f Value) {
 		st.clock = fr.thread.clock.join(nil)
 		fr.thread.tick()
 	}
+}
+
+// imgRace: happens-before race detection for raw image accesses, at the granularity of
+// the base address term (accesses t+k and t+j belong to the same region).
+func (in *Interp) imgRace(fr *frame, addr *Term, write bool) {
+	if fr == nil || fr.thread == nil || in.path.threads == nil || !in.path.threads.running {
+		return
+	}
+	ts := in.path.threads
+	base, _ := splitBase(addr)
+	if base == nil {
+		base = addr
+	}
+	if ts.imgCells == nil {
+		ts.imgCells = map[*Term]*Value{}
+	}
+	c, ok := ts.imgCells[base]
+	if !ok {
+		c = new(Value)
+		ts.imgCells[base] = c
+	}
+	in.raceAccess(fr, c, write)
 }
